@@ -132,6 +132,15 @@ static std::string decompose(const Elem &e, const char *p, size_t n, const std::
     return "";
   }
   if (!rtosc_bundle_p(p)) return path + ": bundle not recognised by rtosc_bundle_p";
+  {
+    // the same bundle followed by a zero size word, measured with "length unknown" (the bound the library itself uses
+    // when rtosc_bundle sizes its elements)
+    bg::Block z(std::string(p, n));
+    size_t lu = rtosc_message_length(z.p.get(), (size_t)-1);
+    if (lu != n) return path + ": rtosc_message_length(bundle, unbounded) = " + std::to_string(lu) + " != size " + std::to_string(n);
+    size_t ku = rtosc_bundle_elements(z.p.get(), (size_t)-1);
+    if (ku != e.kids.size()) return path + ": rtosc_bundle_elements(bundle, unbounded) = " + std::to_string(ku) + " != " + std::to_string(e.kids.size());
+  }
   size_t l = rtosc_message_length(p, n);
   if (l != n) return path + ": rtosc_message_length(bundle) = " + std::to_string(l) + " != size " + std::to_string(n);
   if (rtosc_bundle_timetag(p) != e.tt) return path + ": time tag not preserved";
